@@ -4,6 +4,7 @@ import (
 	"fmt"
 	"go/token"
 	"go/types"
+	"strings"
 
 	"golang.org/x/tools/go/ssa"
 )
@@ -16,6 +17,7 @@ func (ex *Exec) guardCheck(st *State, addr Term, write bool, pos token.Pos) {
 	if a == nil || a.Kind != "field" {
 		return
 	}
+	ex.accessAsserts(st, a, write, pos)
 	for _, g := range ex.guards {
 		if a.Array != g.array || g.g.Send {
 			continue
@@ -43,6 +45,41 @@ func (ex *Exec) guardCheck(st *State, addr Term, write bool, pos token.Pos) {
 			kind = "write"
 		}
 		ex.addOb(st, "guard", ex.fn.Name()+".guard."+g.g.Struct+"."+g.g.Field+"."+kind, g.g.Struct+"."+g.g.Field+" accessed holding "+g.g.Mutex, pos, goal)
+	}
+}
+
+// accessAsserts: `at write|read S.f requires e` clauses of the function under contract: an obligation at
+// every store to / load from field f of an S the function did not allocate itself.
+func (ex *Exec) accessAsserts(st *State, a *Addr, write bool, pos token.Pos) {
+	if len(ex.fc.AccessAsserts) == 0 {
+		return
+	}
+	kind := "read"
+	if write {
+		kind = "write"
+	}
+	for _, key := range sortedKeys(ex.fc.AccessAsserts) {
+		if !strings.HasPrefix(key, kind+" ") || !strings.HasSuffix(a.Array, "."+key[len(kind)+1:]) {
+			continue
+		}
+		for _, al := range st.allocs {
+			if al.S == a.Base.S {
+				return
+			}
+		}
+		if ex.accessUsed == nil {
+			ex.accessUsed = map[string]bool{}
+		}
+		ex.accessUsed[key] = true
+		env := ex.contractEnv(st, ex.entry)
+		for i, c := range ex.fc.AccessAsserts[key] {
+			cv, err := env.Eval(c.Expr)
+			if err != nil {
+				ex.aborted = fmt.Sprintf("%s:%d: at %s requires: %v", c.File, c.Line, key, err)
+				return
+			}
+			ex.addOb(st, "guard", ex.obName(fmt.Sprintf("access.%s.%d", strings.ReplaceAll(key, " ", "."), i), c.Label), c.Src, pos, cv.T)
+		}
 	}
 }
 
